@@ -173,6 +173,8 @@ def run_query(A, q):
         if k == "views":
             return {"ok": U.views(A)}
     except Exception as e:
+        if type(e).__name__ == "Timeout":       # the runner's own deadline
+            raise
         return {"err": type(e).__name__}
     raise ValueError(k)
 
@@ -624,8 +626,9 @@ def mutate_all(B):
     for e in edits:
         try:
             e()
-        except Exception:
-            pass
+        except Exception as ex:
+            if type(ex).__name__ in ("Timeout", "CallTimeout"):
+                raise
 
 
 def run_alias_oracle(inp):
